@@ -41,9 +41,15 @@ def newFast (p : F) : Angle F :=
     else toUsize p
   ⟨zero, nq⟩
 
-/-- `normalized_total` of the general path (angle.rs:62-71) -/
+/-- `total_angle` of the general path: scale by π first; when that product is not a normal number (it overflowed, or
+    is zero / subnormal) divide first instead -/
+def newRawTotal (p d : F) : F :=
+  let scaled := fmul p pi
+  if isNormal scaled then fdiv scaled d else fmul (fdiv p d) pi
+
+/-- `normalized_total` of the general path -/
 def newTotal (p d : F) : F :=
-  let total := fdiv (fmul p pi) d
+  let total := newRawTotal p d
   if flt total zero then
     let full := ceil (fdiv (fabs total) (fmul four qp))
     fmax (fadd total (fmul (fmul full four) qp)) zero
